@@ -1,13 +1,14 @@
 //! C01 (incremental == from-scratch) and C03 (only justified work) share one
 //! workload: sequential histories over generated programs, two checkers.
 
+use std::collections::{BTreeMap, BTreeSet};
 use std::sync::Arc;
 
 use qbice::engine::YieldFrequency;
 
 use crate::{
     eng::{
-        Backend, HistParams, MemBackend, RecBackend, RunOutcome, Step, gen_history, history_json,
+        Backend, HistParams, MemBackend, Prerepair, RecBackend, RunOutcome, Step, gen_history, history_json,
         run_sequential, violation_from,
     },
     model::{GenParams, Program, gen_family, gen_program},
@@ -48,6 +49,8 @@ pub fn meta(id: &'static str, tier: Tier) -> CheckMeta {
             budget_s: tier.pick(300, 2400),
             env: vec![],
             program: None,
+            prepare: None,
+            sanitizer: None,
         }],
         must_be_nonzero: vec![
             ("reexecutions", "no re-execution observed"),
@@ -113,7 +116,7 @@ pub fn run_on<B: Backend>(b: &B, case: &Case, cfg: &CaseCfg) -> Result<RunOutcom
 }
 
 pub fn run_on_mode<B: Backend>(b: &B, case: &Case, cfg: &CaseCfg, prerepair: bool) -> Result<RunOutcome, String> {
-    run_on_from(b, case, cfg, if prerepair { Some(0) } else { None })
+    run_on_from(b, case, cfg, if prerepair { Some(Prerepair { from_step: 0, only: None }) } else { None })
 }
 
 /// First query step of the epoch that contains history step `step`.
@@ -125,7 +128,7 @@ pub fn epoch_start(history: &[Step], step: usize) -> usize {
     i
 }
 
-pub fn run_on_from<B: Backend>(b: &B, case: &Case, cfg: &CaseCfg, prerepair: Option<usize>) -> Result<RunOutcome, String> {
+pub fn run_on_from<B: Backend>(b: &B, case: &Case, cfg: &CaseCfg, prerepair: Option<Prerepair>) -> Result<RunOutcome, String> {
     let yf = cfg.yield_every.map_or(YieldFrequency::Never, YieldFrequency::EveryNQuery);
     let rt = if cfg.rt_workers == 0 {
         tokio::runtime::Builder::new_current_thread().enable_all().build()
@@ -133,7 +136,7 @@ pub fn run_on_from<B: Backend>(b: &B, case: &Case, cfg: &CaseCfg, prerepair: Opt
         tokio::runtime::Builder::new_multi_thread().worker_threads(cfg.rt_workers).enable_all().build()
     }
     .map_err(|e| e.to_string())?;
-    let out = rt.block_on(run_sequential(b, case.prog.clone(), &case.history, yf, cfg.exec_yields, prerepair));
+    let out = rt.block_on(run_sequential(b, case.prog.clone(), &case.history, yf, cfg.exec_yields, prerepair.as_ref()));
     rt.shutdown_timeout(std::time::Duration::from_secs(2));
     Ok(out)
 }
@@ -170,9 +173,9 @@ pub fn pick_cfg(r: &mut Rng) -> (CaseCfg, BackendSpec) {
 }
 
 /// Run a case; returns the outcome and the RecKv backend used (if any).
-pub fn run_spec(spec: &BackendSpec, case: &Case, cfg: &CaseCfg, prerepair: Option<usize>) -> (Result<RunOutcome, String>, Option<RecBackend>) {
+pub fn run_spec(spec: &BackendSpec, case: &Case, cfg: &CaseCfg, prerepair: Option<Prerepair>) -> (Result<RunOutcome, String>, Option<RecBackend>) {
     match spec.rec() {
-        Some(b) => (run_on_from(&b, case, cfg, prerepair), Some(b)),
+        Some(b) => (run_on_from(&b, case, cfg, prerepair.clone()), Some(b)),
         None => (run_on_from(&MemBackend, case, cfg, prerepair), None),
     }
 }
@@ -195,7 +198,7 @@ pub fn case_json(seed: u64, idx: u64, case: &Case, cfg: &CaseCfg) -> Json {
 
 pub fn worker(ctx: &WorkerCtx, prop: &str) -> Report {
     let mut rep = Report::default();
-    let ncases: u64 = if ctx.part == "miri" { 1 } else { ctx.tier.pick(20, 320) };
+    let ncases: u64 = if ctx.part == "miri" { 1 } else { ctx.pick(600, 15_000) };
     let only: Option<u64> = ctx.replay.as_ref().and_then(|p| {
         let s = std::fs::read_to_string(p).ok()?;
         let j = Json::parse(&s).ok()?;
@@ -260,8 +263,65 @@ pub fn worker(ctx: &WorkerCtx, prop: &str) -> Report {
             // node at every query step from the epoch of the first violation on
             // (not earlier: repairing in earlier epochs would also hide defects
             // in how firewall state is carried from one epoch to the next)
-            let from = epoch_start(&case.history, out.oracle.first_c01_step.unwrap_or(0));
-            let (cf, _) = run_spec(&spec, &case, &cfg, Some(from));
+            let mut from = epoch_start(&case.history, out.oracle.first_c01_step.unwrap_or(0));
+            // ... and only of the queries that *executors* read at that step
+            // (the finding is about executor-level reads; a stale answer that
+            // involves no executor-level read is not this finding). Repairing
+            // can make further executors run, so the set is grown to a fixpoint.
+            // (On a multi-thread runtime a re-run can show the finding in an
+            // earlier epoch than the first run did: `from` follows.)
+            let mut targets: BTreeMap<usize, BTreeSet<crate::model::NodeId>> = out.exec_read_targets.clone();
+            let mut cf = Err("not run".to_string());
+            for round in 0..8 {
+                let (c, _) = run_spec(&spec, &case, &cfg, Some(Prerepair { from_step: from, only: Some(targets.clone()) }));
+                rep.count("counterfactual_runs", 1);
+                let mut grown = false;
+                if let Ok(c) = &c {
+                    if c.oracle.c01_violated {
+                        for (st, set) in &c.exec_read_targets {
+                            let e = targets.entry(*st).or_default();
+                            for n in set {
+                                grown |= e.insert(*n);
+                            }
+                        }
+                        let f2 = epoch_start(&case.history, c.oracle.first_c01_step.unwrap_or(0));
+                        if f2 < from {
+                            from = f2;
+                            grown = true;
+                        }
+                    }
+                }
+                cf = c;
+                if !grown {
+                    break;
+                }
+                rep.max("counterfactual_rounds", round + 2);
+            }
+            if cfg.rt_workers > 0 && !matches!(&cf, Ok(c) if !c.oracle.c01_violated) {
+                // On a multi-thread runtime the set of executor-level reads differs from run
+                // to run, so the narrowed counterfactual is not reliable there: fall back to
+                // the user repairing below every computed query (what the finding's signature
+                // says). Deterministic (current_thread) cases never take this path.
+                rep.count("narrow_counterfactual_failed_on_multithread_case", 1);
+                for _ in 0..4 {
+                    let (c, _) = run_spec(&spec, &case, &cfg, Some(Prerepair { from_step: from, only: None }));
+                    rep.count("counterfactual_runs", 1);
+                    let mut lowered = false;
+                    if let Ok(c) = &c {
+                        if c.oracle.c01_violated {
+                            let f2 = epoch_start(&case.history, c.oracle.first_c01_step.unwrap_or(0));
+                            if f2 < from {
+                                from = f2;
+                                lowered = true;
+                            }
+                        }
+                    }
+                    cf = c;
+                    if !lowered {
+                        break;
+                    }
+                }
+            }
             match cf {
                 Ok(cf) if !cf.oracle.c01_violated => {
                     rep.count("cases_attributed_to_C01-F1", 1);
